@@ -213,6 +213,14 @@ class FullStackSoapClient(SoapClient):
             raise verdict
         if isinstance(verdict, tuple) and verdict[0] == 'delay':
             time.sleep(float(verdict[1]))
+        if isinstance(verdict, tuple) and verdict[0] == 'after':
+            # the request arrives, the answer gets lost on the way back
+            wire.outcome = 'answer-lost:' + type(verdict[1]).__name__
+            try:
+                net.deliver_raw(wire)
+            except Exception:  # noqa: BLE001
+                pass
+            raise verdict[1]
         return net.deliver_raw(wire)
 
 
